@@ -150,7 +150,11 @@ inline bool mutate(std::vector<OutPdu> &r, int mut, int pos, int ver, const std:
 		if (!has_cr) return false;
 		int id = -1;
 		if (!reset_query && !held.empty()) { auto it = held.begin(); std::advance(it, seed % held.size()); id = *it; }
-		for (size_t i : pay) if (id < 0 && r[i].flags == 1) id = r[i].id;
+		if (id < 0) { // any announcement of the response (not always the first one: the duplicate may be a prefix of either family or a router key)
+			std::vector<int> ann;
+			for (size_t i : pay) if (r[i].flags == 1) ann.push_back(r[i].id);
+			if (!ann.empty()) id = ann[(seed / 3) % ann.size()];
+		}
 		if (id < 0) id = (int)(seed % wire::N_UREC);
 		if (ver == 0 && wire::is_key(id)) id = 0;
 		OutPdu p; p.b = wire::payload_pdu(ver, id, 1); p.id = id; p.flags = 1; p.payload = true;
